@@ -597,6 +597,13 @@ class CompilerPassGenerateCode(CompilerPass):
                 and not other_calls
                 and not has_early_return
                 and not has_list_loop
+                # a value pushed by the callee is dropped by the 'pop' behind the call
+                and not (
+                    self.data.options.use_push_pop_functions
+                    and self.data.functions[
+                        get_function_name(last_node.func)
+                    ].has_return_value
+                )
             ):
                 ndata = last_node._ndata
                 if isinstance(last_node.func, nodes.Attribute):
